@@ -22,24 +22,32 @@ check('C05', 'proof',
       'compile_body (the only place where cut is compiled) is verified path by path - 20 paths, one obligation set per rewrite/emit case - against '
       'the control algebra: semc(result) == semb(body) for all sub-bodies, where semb(!) = seq(yield,cut) and a YieldBreak statement denotes cut; '
       'the algebraic lemmas are proved in Lean 4 (pure model and effect-threading model). The step from the YPCode tree to running Python '
-      '(return ends exactly the clause function) is A-CPY-TEXT and is covered by the bounded differential run against a reference interpreter.',
+      '(return ends exactly the clause function) is A-CPY-TEXT and is covered by the bounded differential run against a reference interpreter. '
+      'The visitor functions that build bodies (operator -> node, a source goal is never the internal $CUTIF marker) and the `variables` properties of '
+      'the AST classes (every variable, also one only under a negation or in a branch, gets declared) are under contract as well.',
       _CTL_NOTE, 'contract-based deductive verification of compile_body (symbolic execution of the real AST to SMT VCs over an uninterpreted '
       'behaviour algebra whose lemmas are proved in Lean) + bounded translation validation of the emitted text', 'DESIGN 5/C05')
 check('C06', 'proof',
       'Same obligations as C05 for the disjunction / if-then-else / negation cases of compile_body: (A;B) = seq, (C->T;E) = ite via the breakable '
       'block lemma ite_block with label freshness from the counter contract, (C->T) = ite(C,T,fail), \\+G = ite(G,fail,yield); all rewrites '
-      '((A,B),C; (A;B),C; (A->T;B),C; ...) are proved meaning-preserving for all sub-bodies. Precedence/associativity is a property of the ANTLR '
-      'parser and is bounded-checked against an independent reader of prolog.g4.',
+      '((A,B),C; (A;B),C; (A->T;B),C; ...) are proved meaning-preserving for all sub-bodies. visitPredicateexpression is verified against parse-tree '
+      'datatypes (one constructor per grammar alternative): , -> ; \\+ map to conjunction / if-then / disjunction / negation, parentheses are '
+      'transparent; the `variables` properties of the AST classes are verified. Precedence/associativity is a property of the ANTLR parser and is '
+      'bounded-checked against an independent reader of prolog.g4.',
       _CTL_NOTE, 'contract-based deductive verification of compile_body + Lean lemma layer; bounded precedence/translation validation', 'DESIGN 5/C06')
 check('C01', 'translation_validation',
-      'Deductive part: compile_body (conjunction = nested loops = bind, i.e. left-to-right depth-first enumeration) verified for all bodies as in '
-      'C05/C06. The clause-level functions (head unification order, aliasing of once-occurring head variables, fresh variable declarations, '
-      'clause grouping) and the emitted text are decided by bounded translation validation: generated whole programs x queries on the real '
+      'Deductive part, function by function on the real code: the visitor from parse trees to the clause AST (visitTerm/Atom/Functor/Termlist/'
+      'Termpredicate/Simplepredicate/Predicateexpression/Clause: every literal form denotes its term, `_` numbered left to right, so every `_` is '
+      'a distinct variable), the `variables` properties of the AST classes, compile_body (conjunction = nested loops = left-to-right depth-first '
+      'enumeration, as in C05/C06), the clause-level compiler functions (exactly the once-occurring plain head variables are aliased to argN, the '
+      'others unified left to right around the body, one fresh declaration per further variable, terms become constructor calls), the constructor '
+      'API and the engine functions a compiled clause calls (unify family, query, match_dynamic, Answer.match). NOT composed into one end-to-end '
+      'theorem and not covering the emitted text: the level stays translation_validation - generated whole programs x queries on the real '
       'compiler+engine against an independent reference SLD interpreter (answers, order, multiplicity, aliasing).',
       _CTL_NOTE + ' STO cases (a head unification that builds a cyclic term) are excluded as unspecified.',
-      'contract-based deductive verification of compile_body; bounded differential translation validation for the clause level', 'DESIGN 5/C01')
+      'contract-based deductive verification of the visitor, the clause compiler and the engine functions a clause calls; bounded differential translation validation for the whole pipeline', 'DESIGN 5/C01')
 
-_ENG_NOTE = ('Trusted: pyvc VC generator and heap model (spec/heap.smt2), SMT solvers, assumed contracts of YP.atom/makelist/chain_functions/'
+_ENG_NOTE = ('Trusted: pyvc VC generator and heap model (spec/heap.smt2), SMT solvers, assumed contracts of YP.atom/chain_functions/'
              'inspect.signature/exec/sys.setrecursionlimit, generator protocol (A-PY-GEN), prompt finalisation (A-REFCOUNT), rely condition at '
              'yields (environment uses the engine API only), A-RN-INV, partial correctness only. Bounded stand-ins are labelled bounded.')
 _VC = 'contract-based deductive verification: sidecar contracts + symbolic execution of the real AST to SMT VCs (z3/cvc5)'
@@ -63,36 +71,43 @@ check('C07', 'proof',
       'copy functions are verified against a heap model of the database (key -> list reference -> sequence of facts): assert publishes old++[copy] '
       '(resp. [copy]++old) as a new list and changes nothing else; retractall publishes exactly the non-matching facts (loop invariant sfilter); each '
       'answer of retract publishes current minus the matched, still present fact; enumeration follows list order to exhaustion; unknown keys are '
-      'empty; non-callable arguments raise YPException. clear() is covered by bounded histories.',
+      'empty; non-callable arguments raise YPException; query enumerates the facts before any definition; the assert/retract builtins are registered '
+      'under the keys compiled code uses (_set_builtin_predicates). clear() is covered by bounded histories.',
       _ENG_NOTE, _VC + ' with a heap model and loop invariants; bounded database histories vs a list model', 'DESIGN 5/C07')
 check('C08', 'proof',
       'YP.query is verified to enumerate the facts of name/len(args) read at its start, then - unless the name is an API name - the function stored '
       'under name_<n>, else name_n, looked up after the facts (late binding), called with the caller\'s argument list; register_function writes exactly '
       'the one key; load_script_from_string is verified with a loop invariant over the keys of the executed context (overwrite replaces, combine '
-      'chains old before new, other keys untouched, engine unchanged if compile/exec raises); key strings are injective (SMT strings).',
+      'chains old before new, other keys untouched, engine unchanged if compile/exec raises); key strings are injective (SMT strings); '
+      '_set_builtin_predicates registers every documented builtin under its key (call variadic).',
       _ENG_NOTE, _VC + '; string-theory obligations for key naming; bounded register/load/assert/clear histories', 'DESIGN 5/C08')
 check('C09', 'proof',
       'call, once, findall, builtin_neq and builtin_eq are verified: call delegates to query(name of the dereferenced goal, its args ++ extra) for atom, '
       'compound and run-time bound goals and raises only for non-callable goals; once yields at most the first answer of call(goal) and ends quietly '
       'when there is none; findall yields once iff the bag unifies with makelist of the collected copies, after the goal iterator is exhausted; \\= '
-      'yields once with no iterator suspended iff query(=) has no answer; = is su (C02).',
+      'yields once with no iterator suspended iff query(=) has no answer; = is su (C02); _set_builtin_predicates registers call for every arity '
+      '(call_n), once_1, findall_3, =_2, \\=_2.',
       _ENG_NOTE, _VC + '; bounded differential runs of meta-call programs', 'DESIGN 5/C09')
 check('C10', 'proof',
       'Typestate obligations proved on the real body of _compile_prolog_from_stream: lexer and parser get an error listener whose syntaxError is a '
       'single raise before program() runs, and the token after the parsed program must be EOF on every path to the return; main turns CompilerError '
-      'into a CLI error. That ANTLR then recognises exactly L(prolog.g4) is assumed and bounded-checked against an independent recogniser.',
+      'into a CLI error; the character stream handed to the lexer is built from the caller\'s text itself. That ANTLR then recognises exactly '
+      'L(prolog.g4) is assumed and bounded-checked against an independent recogniser.',
       'Assumed: A-EXT-ANTLR. Trusted: the typestate checker (AST), the independent recogniser standin/g4reader.py.',
       'typestate contract on the ANTLR objects checked on the real AST; bounded differential against an independent grammar recogniser', 'DESIGN 5/C10')
 check('C11', 'proof',
       'Lexical sinks verified with SMT strings on the real visitor code (emitted variable names are identifiers distinct from reserved, engine and '
       'generated names; renaming injective; head names match the identifier pattern; numerals emitted as str(int(text))), provenance and template '
-      'obligations on the generator AST, size guards (block and bracket nesting) present. The shape of the whole output (parses, one generator def '
+      'obligations on the generator AST; visitClause verified (the head of every accepted clause is an ordinary goal whose name matches the identifier '
+      'pattern: the Python regular expression is translated to an SMT regular language); nesting_depth, compile_expression/compile_list bracket depth '
+      'and the CompilerError guard of compile_function_body verified. The shape of the whole output (parses, one generator def '
       'per clause-head key, loads) is decided by bounded stand-ins modulo A-PYGRAMMAR.',
       'Assumed: A-PYGRAMMAR, A-CPY-LIMITS, A-PY-STR (incl. str(n) is a decimal literal), A-EXT-ANTLR token rules. Trusted: AST checkers, SMT string solvers.',
       _VC + ' with the SMT string theory; AST provenance/template obligations; bounded boundary-program loading', 'DESIGN 5/C11')
 check('C12', 'proof',
       'Provenance: every read of source-derived text in the compiler flows into a lexical sink (repr literal, integer literal, checked identifier); '
-      'names of called functions in emitted code are compiler literals; the $CUTIF marker is rejected in source; variables cannot capture engine names '
+      'names of called functions in emitted code are compiler literals; the $CUTIF marker is rejected in source for every arity (visitTermpredicate '
+      'verified: an accepted goal is never read by compile_body as its internal marker); variables cannot capture engine names '
       '(visitVARIABLE contract); the script context is a per-instance copy with empty __builtins__; YP.query refuses API names for definitions.',
       'Assumed: A-CPY-REPR, A-PYGRAMMAR, A-EXT-EXEC. Trusted: AST checkers, SMT string solvers.',
       'taint/provenance obligations on the real AST + string-theory contracts on the sinks; bounded hostile-atom corpus', 'DESIGN 5/C12')
@@ -109,14 +124,17 @@ check('C14', 'proof',
       _ENG_NOTE, _VC + ' with ownership (published-set) ghost state and rely/guarantee at yields; bounded interleaving histories', 'DESIGN 5/C14')
 check('C15', 'proof',
       'get_value (module function and the three methods) is verified to return resolve(t, store), the fully dereferenced term, for every store; '
-      'Variable.unify stores the resolved value; findall and assert_fact export fresh copies of resolved terms. to_python is decided by the bounded '
-      'stand-in only.',
+      'Variable.unify stores the resolved value; findall and assert_fact export fresh copies of resolved terms; to_python (function and three methods) '
+      'is verified against the value specification topy (dereferences at every depth).',
       _ENG_NOTE, _VC + '; bounded binding-history exploration for to_python and value stability', 'DESIGN 5/C15')
 check('C16', 'proof',
       'unquoteString verified with a loop invariant in the SMT string theory (result = text between the quotes with every backslash removed); `_` '
-      'numbering verified (visitVARIABLE); atoms unify by name (Atom.unify against su). The mapping literal -> AST -> constructor calls -> run-time '
-      'term and to_python are decided by the bounded stand-in (random Unicode literals in four positions, independent renderer).',
-      'Assumed: A-EXT-ANTLR (token texts), A-CPY-REPR, A-EXT-REDUCE. The larger part of this property is decided by the bounded stand-in.',
+      'numbering verified (visitVARIABLE); atoms unify by name (Atom.unify against su); the visitor maps every term alternative of the grammar to the '
+      'term it denotes (visitTerm/Atom/Functor/Termlist against parse-tree datatypes); compile_expression/compile_list emit the constructor calls '
+      'cexpr(t) and L-LITERAL (by induction) shows they build the denoted term; the constructor API functor/functor1-3/listpair/variable/makelist and '
+      'to_python are verified against their specifications. The emitted text (repr of strings, A-CPY-REPR) and the whole round trip are decided by the '
+      'bounded stand-in (random Unicode literals in four positions, independent renderer).',
+      'Assumed: A-EXT-ANTLR (token texts, tree shape), A-CPY-REPR, A-EXT-REDUCE (functools.reduce is a fold).',
       _VC + ' (string loop invariant); bounded literal round-trip translation validation', 'DESIGN 5/C16')
 check('C17', 'proof',
       'evaluate_bounded is verified for all queries and projection functions: the recursion limit equals its entry value on every exit edge (normal '
@@ -126,7 +144,8 @@ check('C17', 'proof',
 check('C18', 'proof',
       'Self-composition by congruence, decided on the real AST: no function reachable from the compile entry points uses a choice primitive '
       '(iteration over sets, hash, id, random, time, environment) or reads module-/class-level mutable state; all stateful objects and counters are '
-      'created per call. Debug streams (not the returned text) print object addresses and are outside the statement.',
+      'created per call; no function is wrapped by a state-holding decorator and none stores into the caller\'s options object. Debug streams (not the '
+      'returned text) print object addresses and are outside the statement.',
       'Assumed: ANTLR runtime deterministic, dict insertion order, str/list primitives functional. Trusted: the AST checker.',
       'determinism contracts (no choice primitive, frame conditions) checked on the real AST; bounded hash-seed/process differential', 'DESIGN 5/C18')
 check('C19', 'proof',
